@@ -29,6 +29,7 @@ import (
 // ---------- scenario ----------
 
 type Ev struct {
+	Ep      uint32 // epoch (1-based)
 	ID      int
 	Cr      int // index into Scn.VIDs
 	Seq     uint32
@@ -40,18 +41,69 @@ type Scn struct {
 	Salt uint64
 	VIDs []uint32
 	Ws   []uint32
-	Seal uint32 // 0 = never; else the application seals the epoch at this frame (validators unchanged)
+	Seal uint32 // 0 = never; else the application seals every epoch at this frame
+	Pol  int    // validators of the next epoch: 0 unchanged, 1 weights mutated, 2 last validator in canonical order removed
 	Evs  []Ev
+
+	vcache map[uint32][2][]uint32
+}
+
+// NextVals is the sealing policy: the validators of epoch+1 from those of epoch.
+func NextVals(pol int, vids, ws []uint32, epoch uint32) ([]uint32, []uint32) {
+	nv := append([]uint32{}, vids...)
+	nw := append([]uint32{}, ws...)
+	switch pol {
+	case 1:
+		for i := range nw {
+			f := 500 + (uint64(nv[i])+7*uint64(epoch))%500
+			nw[i] = uint32(uint64(nw[i])*f/1000 + 1)
+		}
+	case 2:
+		if len(nv) > 1 {
+			// last in canonical order: lowest weight, then highest id
+			k := 0
+			for i := range nv {
+				if nw[i] < nw[k] || (nw[i] == nw[k] && nv[i] > nv[k]) {
+					k = i
+				}
+			}
+			nv = append(nv[:k], nv[k+1:]...)
+			nw = append(nw[:k], nw[k+1:]...)
+		}
+	}
+	return nv, nw
+}
+
+// ValsAt returns the validator list (ids, weights) of an epoch.
+func (s *Scn) ValsAt(epoch uint32) ([]uint32, []uint32) {
+	if epoch <= 1 {
+		return s.VIDs, s.Ws
+	}
+	if s.vcache == nil {
+		s.vcache = map[uint32][2][]uint32{}
+	}
+	if c, ok := s.vcache[epoch]; ok {
+		return c[0], c[1]
+	}
+	pv, pw := s.ValsAt(epoch - 1)
+	nv, nw := NextVals(s.Pol, pv, pw, epoch-1)
+	s.vcache[epoch] = [2][]uint32{nv, nw}
+	return nv, nw
 }
 
 // Header tokens: salt seal nv id1 w1 ... ; ops: e id cr seq frame parents...
 func (s *Scn) Tokens(extraHeader []string) []string {
-	t := []string{u64(s.Salt), strconv.Itoa(int(s.Seal)), strconv.Itoa(len(s.VIDs))}
+	t := []string{u64(s.Salt), strconv.Itoa(int(s.Seal) + 100*s.Pol), strconv.Itoa(len(s.VIDs))}
 	for i := range s.VIDs {
 		t = append(t, strconv.Itoa(int(s.VIDs[i])), strconv.Itoa(int(s.Ws[i])))
 	}
 	t = append(t, extraHeader...)
+	ep := uint32(1)
 	for _, e := range s.Evs {
+		for e.Ep > ep {
+			t = append(t, ";", "n")
+			ep++
+		}
 		t = append(t, ";", "e", strconv.Itoa(e.ID), strconv.Itoa(e.Cr), strconv.Itoa(int(e.Seq)), strconv.Itoa(int(e.Frame)))
 		for _, p := range e.Parents {
 			t = append(t, strconv.Itoa(p))
@@ -85,7 +137,8 @@ func Parse(tok []string) (*Scn, []string, error) {
 	if err != nil {
 		return nil, nil, err
 	}
-	s.Seal = uint32(seal)
+	s.Seal = uint32(seal % 100)
+	s.Pol = seal / 100
 	nv, err := strconv.Atoi(h[2])
 	if err != nil || len(h) < 3+2*nv {
 		return nil, nil, fmt.Errorf("bad header")
@@ -100,7 +153,12 @@ func Parse(tok []string) (*Scn, []string, error) {
 		s.Ws = append(s.Ws, uint32(b))
 	}
 	extra := h[3+2*nv:]
+	ep := uint32(1)
 	for _, g := range groups[1:] {
+		if len(g) == 1 && g[0] == "n" {
+			ep++
+			continue
+		}
 		if len(g) < 5 || g[0] != "e" {
 			continue
 		}
@@ -112,7 +170,7 @@ func Parse(tok []string) (*Scn, []string, error) {
 			}
 			n[i] = int(v)
 		}
-		s.Evs = append(s.Evs, Ev{ID: n[0], Cr: n[1], Seq: uint32(n[2]), Frame: uint32(n[3]), Parents: n[4:]})
+		s.Evs = append(s.Evs, Ev{Ep: ep, ID: n[0], Cr: n[1], Seq: uint32(n[2]), Frame: uint32(n[3]), Parents: n[4:]})
 	}
 	return s, extra, nil
 }
@@ -142,10 +200,15 @@ type Inst struct {
 	Blocks []Blk
 	Crit   []string
 	Seal   uint32
+	Pol    int
+	CurV   []uint32
+	CurW   []uint32
 }
 
+func (in *Inst) Epoch() uint32 { return uint32(in.Store.GetEpoch()) }
+
 func NewInst(s *Scn) *Inst {
-	in := &Inst{Input: &EvStore{db: map[hash.Event]dag.Event{}}, Seal: s.Seal}
+	in := &Inst{Input: &EvStore{db: map[hash.Event]dag.Event{}}, Seal: s.Seal, Pol: s.Pol, CurV: s.VIDs, CurW: s.Ws}
 	b := pos.NewBuilder()
 	for i := range s.VIDs {
 		b.Set(idx.ValidatorID(s.VIDs[i]), pos.Weight(s.Ws[i]))
@@ -168,7 +231,12 @@ func NewInst(s *Scn) *Inst {
 					var res *pos.Validators
 					if in.Seal != 0 && bl.Frame == in.Seal {
 						bl.Sealed = true
-						res = in.Store.GetValidators()
+						in.CurV, in.CurW = NextVals(in.Pol, in.CurV, in.CurW, bl.Epoch)
+						nb := pos.NewBuilder()
+						for i := range in.CurV {
+							nb.Set(idx.ValidatorID(in.CurV[i]), pos.Weight(in.CurW[i]))
+						}
+						res = nb.Build()
 					}
 					in.Blocks = append(in.Blocks, bl)
 					return res
@@ -186,8 +254,12 @@ func NewInst(s *Scn) *Inst {
 // events. Returns nil when a parent is unknown.
 func EventOf(s *Scn, ev Ev, ids map[int]*tdag.TestEvent, epoch uint32) *tdag.TestEvent {
 	e := &tdag.TestEvent{}
+	if ev.Ep > 0 {
+		epoch = ev.Ep
+	}
+	vids, _ := s.ValsAt(epoch)
 	e.SetEpoch(idx.Epoch(epoch))
-	e.SetCreator(idx.ValidatorID(s.VIDs[ev.Cr%len(s.VIDs)]))
+	e.SetCreator(idx.ValidatorID(vids[ev.Cr%len(vids)]))
 	e.SetSeq(idx.Event(ev.Seq))
 	e.SetFrame(idx.Frame(ev.Frame))
 	ps := hash.Events{}
@@ -370,7 +442,7 @@ func Generate(r *rand.Rand, s *Scn, cfg GenCfg) {
 	ref := NewInst(s)
 	nv := len(s.VIDs)
 	ids := map[int]*tdag.TestEvent{}
-	own := make([][]int, nv)   // all own accepted events, in creation order
+	own := make([][]int, nv)   // all own accepted events of this epoch, in creation order
 	heads := make([][]int, nv) // own events that are not a self-parent of another (branch tips)
 	evByID := map[int]Ev{}
 	var act []int
@@ -380,12 +452,33 @@ func Generate(r *rand.Rand, s *Scn, cfg GenCfg) {
 		}
 	}
 	next := 0
+	curEp := uint32(1)
 	for step := 0; step < cfg.NEvents && len(act) > 0; step++ {
-		if ref.Store.GetEpoch() != 1 {
-			break
+		if ep := ref.Epoch(); ep != curEp {
+			// the application sealed the epoch: new validator set, empty DAG
+			if ep > 3 {
+				break
+			}
+			curEp = ep
+			nv = len(ref.CurV)
+			own, heads = make([][]int, nv), make([][]int, nv)
+			cfg.Lag, cfg.Group = make([]int, nv), make([]int, nv)
+			act = nil
+			for v := 0; v < nv; v++ {
+				cfg.Lag[v] = 1 + r.Intn(4)
+				cfg.Group[v] = r.Intn(2)
+				for k := 0; k < cfg.Lag[v]; k++ {
+					act = append(act, v)
+				}
+			}
+			cfg.Cheat = PickCheaters(r, ref.CurW, r.Intn(3))
+			cfg.PartUntil = 0
+			if cfg.MaxPar > nv {
+				cfg.MaxPar = nv
+			}
 		}
 		c := act[r.Intn(len(act))]
-		ev := Ev{ID: next, Cr: c, Seq: 1}
+		ev := Ev{Ep: curEp, ID: next, Cr: c, Seq: 1}
 		// self-parent
 		if len(own[c]) > 0 {
 			sp := own[c][len(own[c])-1]
@@ -431,7 +524,7 @@ func Generate(r *rand.Rand, s *Scn, cfg GenCfg) {
 		if ev.Seq > 1 && len(ev.Parents) == 0 {
 			continue
 		}
-		e := EventOf(s, ev, ids, 1)
+		e := EventOf(s, ev, ids, curEp)
 		if e == nil {
 			continue
 		}
@@ -477,7 +570,7 @@ func Generate(r *rand.Rand, s *Scn, cfg GenCfg) {
 		if spf > 0 && high > spf && r.Float64() < cfg.LowerP {
 			ev.Frame = spf + uint32(r.Intn(int(high-spf)))
 		}
-		e = EventOf(s, ev, ids, 1)
+		e = EventOf(s, ev, ids, curEp)
 		code, crashed := safeProcess(ref, e)
 		if crashed || code == 9 {
 			s.Evs = append(s.Evs, ev)
@@ -632,6 +725,12 @@ func RandomScenario(r *rand.Rand, maxEvents int, probes bool) (*Scn, GenCfg, str
 	if r.Intn(3) == 0 {
 		cfg.LowerP = 0.1
 	}
+	if r.Intn(4) == 0 {
+		// the application seals every epoch at frame 1, 2, 3 or 5; up to three epochs
+		s.Seal = []uint32{1, 2, 3, 5}[r.Intn(4)]
+		s.Pol = r.Intn(3)
+		kind += fmt.Sprintf("_seal%d", s.Pol)
+	}
 	if probes {
 		cfg.ProbeP = 0.08
 	}
@@ -648,8 +747,43 @@ func RandomScenario(r *rand.Rand, maxEvents int, probes bool) (*Scn, GenCfg, str
 
 // Order returns a parents-first order (indices into s.Evs) chosen by kind and seed.
 //   0 random topological   1 latest-ready-first   2 one validator as late as possible
-//   3 cheaters' events first   4 cheaters' events last   5 creation order   6 earliest of the highest frame last
+//   3 cheaters' events first   4 cheaters' events last   5 creation order   6 lowest frame first
+//   7 the seed-th linear extension (all parents-first orders, enumerated; small DAGs only)
 func Order(s *Scn, kind int, seed int64) []int {
+	// epoch by epoch
+	maxEp := uint32(1)
+	for _, e := range s.Evs {
+		if e.Ep > maxEp {
+			maxEp = e.Ep
+		}
+	}
+	if maxEp > 1 {
+		var out []int
+		for ep := uint32(1); ep <= maxEp; ep++ {
+			sub := &Scn{Salt: s.Salt}
+			sub.VIDs, sub.Ws = s.ValsAt(ep)
+			var back []int
+			for i, e := range s.Evs {
+				if e.Ep == ep {
+					e2 := e
+					e2.Ep = 1
+					sub.Evs = append(sub.Evs, e2)
+					back = append(back, i)
+				}
+			}
+			for _, j := range Order(sub, kind, seed+int64(ep)) {
+				out = append(out, back[j])
+			}
+		}
+		return out
+	}
+	if kind%8 == 7 {
+		all := LinearExtensions(s, 5041)
+		if len(all) == 0 {
+			return nil
+		}
+		return all[int(uint64(seed)%uint64(len(all)))]
+	}
 	n := len(s.Evs)
 	pos := map[int]int{}
 	for i, e := range s.Evs {
@@ -711,7 +845,7 @@ func Order(s *Scn, kind int, seed int64) []int {
 			return a[r.Intn(len(a))]
 		}
 		var pick int
-		switch kind % 7 {
+		switch kind % 8 {
 		case 0:
 			pick = ready[r.Intn(len(ready))]
 		case 1:
@@ -731,6 +865,50 @@ func Order(s *Scn, kind int, seed int64) []int {
 		done[pick] = true
 		out = append(out, pick)
 	}
+	return out
+}
+
+// LinearExtensions enumerates the parents-first orders of s.Evs (at most limit of them).
+func LinearExtensions(s *Scn, limit int) [][]int {
+	n := len(s.Evs)
+	pos := map[int]int{}
+	for i, e := range s.Evs {
+		pos[e.ID] = i
+	}
+	var out [][]int
+	done := make([]bool, n)
+	cur := make([]int, 0, n)
+	var rec func()
+	rec = func() {
+		if len(out) >= limit {
+			return
+		}
+		if len(cur) == n {
+			out = append(out, append([]int{}, cur...))
+			return
+		}
+		for i, e := range s.Evs {
+			if done[i] {
+				continue
+			}
+			ok := true
+			for _, p := range e.Parents {
+				if j, known := pos[p]; known && !done[j] {
+					ok = false
+					break
+				}
+			}
+			if !ok {
+				continue
+			}
+			done[i] = true
+			cur = append(cur, i)
+			rec()
+			cur = cur[:len(cur)-1]
+			done[i] = false
+		}
+	}
+	rec()
 	return out
 }
 
